@@ -18,17 +18,17 @@ MS = {"engine": "mapspace", "needs": ["hz", "enum", "mapspace"], "level": "model
       "gen": {"quick": ["mx"], "thorough": ["mx", "mxall"]}, "budget": {"quick": "200s", "thorough": "1500s"}}
 
 GS13 = {"engine": "genspace", "needs": ["hz", "schema", "genspace"], "level": "model_checking", "plugins": ["plain", "mapctl"],
-        "budget": {"quick": "300s", "thorough": "2400s"}}
+        "budget": {"quick": "900s", "thorough": "2400s"}}
 
 SM = {"engine": "small", "needs": ["hz", "enum", "small"], "level": "exploration", "gen": {"quick": ["mx"], "thorough": ["mx"]}}
 
 RS = {"engine": "rapidspace", "needs": ["hz", "enum", "rapidspace"], "level": "model_checking", "test": True,
       "gen": {"quick": ["mx"], "thorough": ["mx"]}, "args": ["-test.run", "TestC18", "-test.timeout", "0"],
-      "budget": {"quick": "360s", "thorough": "1800s"}}
+      "budget": {"quick": "900s", "thorough": "1800s"}}
 
 PROPS = {
     "C11": {"engine": "sched", "needs": ["hz", "enum", "zzyield", "sched"], "level": "model_checking", "race_twin": True, "instrument_yield": True, "mapctl": True,
-            "gen": {"quick": ["mx"], "thorough": ["mx"]}, "budget": {"quick": "300s", "thorough": "2400s"}},
+            "gen": {"quick": ["mx"], "thorough": ["mx"]}, "budget": {"quick": "900s", "thorough": "2400s"}},
     "C19": {"engine": "coherence", "needs": ["hz", "enum", "coherence"], "level": "exploration", "reqdata": True,
             "gen": {"quick": ["mx"], "thorough": ["mx", "mxall"]}},
     "C12": {"engine": "genspace", "custom": "c12", "needs": [], "level": "exploration"},
@@ -36,7 +36,7 @@ PROPS = {
     "C13": dict(GS13),
     "C05": dict(MS),
     "C09": dict(OS),
-    "C08": dict(OS, level="model_checking", budget={"quick": "240s", "thorough": "1500s"}),
+    "C08": dict(OS, level="model_checking", budget={"quick": "600s", "thorough": "1500s"}),
     "C06": dict(BS),
     "C03": dict(WS),
     "C14": dict(WS),
